@@ -790,6 +790,18 @@ pub async fn run_script(ctx: ConnCtx, stream: BoxStream, ops: Vec<Op>) {
                                 let u = |o: usize| u64::from_le_bytes(hdr[o..o + 8].try_into().unwrap());
                                 let (seed, c2s, s2c) = (u(4), u(12), u(20));
                                 let flags = u32::from_le_bytes(hdr[28..32].try_into().unwrap());
+                                if flags & 2 != 0 {
+                                    // casualty: the origin aborts while the client's stream is still arriving
+                                    // (unread bytes at the close = reset); delay in ms in bits 8..24
+                                    let mut m = rec_base(&ctx, &i, op);
+                                    m.insert("tag_seed".into(), json!(seed));
+                                    tokio::time::sleep(Duration::from_millis(((flags >> 8) & 0xffff) as u64)).await;
+                                    sim::tcp_reset_id(ctx.sim_id);
+                                    r.rd = None;
+                                    w.wr = None;
+                                    rec_end(&ctx, m, "casualty");
+                                    Outcome::Ok
+                                } else {
                                 let rops = vec![
                                     Op { op: "expect".into(), fill: Some((seed, c2s)), timeout_ms: op.timeout_ms, ..Default::default() },
                                     Op { op: "recv_eof".into(), timeout_ms: op.timeout_ms, ..Default::default() },
@@ -807,6 +819,7 @@ pub async fn run_script(ctx: ConnCtx, stream: BoxStream, ops: Vec<Op>) {
                                     Outcome::Ok
                                 } else {
                                     Outcome::Fail("tagged".into())
+                                }
                                 }
                             } else {
                                 let m = rec_base(&ctx, &i, op);
